@@ -13,6 +13,8 @@ from pathlib import Path
 
 VERIF = Path(__file__).resolve().parent.parent
 REPO = Path("/repo")
+# checks run against a mutated tree write their evidence here, never into the committed evidence/ directory
+MUTANT_EVIDENCE = os.environ.get("VERIF_EVIDENCE_DIR") or "/tmp/verif_mutant_evidence"
 
 
 def sh(cmd, cwd=None, env=None, timeout=3600):
@@ -56,7 +58,7 @@ def main():
         try:
             for p in [prop] + also:
                 t0 = time.time()
-                rc, o = sh(f"./check {p} --tier {tier}", cwd=VERIF, env=dict(os.environ, ODX_REPO=str(wt)), timeout=7200)
+                rc, o = sh(f"./check {p} --tier {tier}", cwd=VERIF, env=dict(os.environ, ODX_REPO=str(wt), VERIF_EVIDENCE_DIR=MUTANT_EVIDENCE), timeout=7200)
                 lines = [l for l in o.splitlines() if l.startswith("VIOLATION") or l.startswith("KNOWN-FINDING") or l.startswith("[")]
                 lines.sort(key=lambda l: not l.startswith("VIOLATION"))     # the record keeps 8 lines: violations first
                 checks[p] = {"exit": rc, "wall_s": round(time.time() - t0, 1), "lines": [l[:300] for l in lines[:8]], "via": "ODX_REPO=scratch worktree"}
@@ -72,7 +74,7 @@ def main():
         try:
             for p in [prop] + also:
                 t0 = time.time()
-                rc, o = sh(f"./check {p} --tier {tier}", cwd=VERIF, timeout=7200)
+                rc, o = sh(f"./check {p} --tier {tier}", cwd=VERIF, env=dict(os.environ, VERIF_EVIDENCE_DIR=MUTANT_EVIDENCE), timeout=7200)
                 lines = [l for l in o.splitlines() if l.startswith("VIOLATION") or l.startswith("KNOWN-FINDING") or l.startswith("[")]
                 lines.sort(key=lambda l: not l.startswith("VIOLATION"))     # the record keeps 8 lines: violations first
                 checks[p] = {"exit": rc, "wall_s": round(time.time() - t0, 1), "lines": [l[:300] for l in lines[:8]]}
